@@ -69,6 +69,8 @@ def _params(name: str, nbits: int, C: int, N: int, tier: str):
             for nch in range(cps, C + 1, cps):
                 for cs in range(0, C - nch + 1):
                     out.append([cs, nch, cps, 200])
+        # the default chanpersub (None = one band of nchans channels)
+        out += [[cs, nch, None, 200] for cs, nch in ((0, C), (per, C - per)) if aligned(nch) and nch > 1 and cs + nch <= C]
         # small batch sizes: bands of the second and later batches
         out += [[0, C, 2, 1], [0, C, 2, 3], [1, 6, 2, 2]] if aligned(2) else [[0, C, cps, 1] for cps in (4, 8) if aligned(cps)]
         return out
@@ -191,6 +193,7 @@ def _expected(name, p, Y, nbits, C, delays):
         return [(1, 32, Y[:, [c]], 0) for c in chans]
     if name == "extract_bands":
         cs, nch, cps = p[:3]
+        cps = nch if cps is None else cps
         return [(cps, nbits, Y[:, cs + i * cps : cs + (i + 1) * cps], 0) for i in range((C - cs) // cps)]
     if name == "downsample":
         tf, ff = p
@@ -301,7 +304,7 @@ def run_shard(shard: dict, ctx, res, only=None) -> None:
 
 def _check_outputs(name, outs, exp, res, case, site, p) -> bool:
     if name == "extract_bands":
-        need = p[1] // p[2]
+        need = p[1] // (p[2] or p[1])
         if len(outs) < need or len(outs) > len(exp):
             res.violation({"site": site, "symptom": "wrong number of output files"}, case, f"{len(outs)} files, need >= {need}")
             return False
